@@ -712,7 +712,8 @@ static std::string apply_random_token_fault_xml_unchecked(const std::string& x, 
 const char* model_fault_name(int f)
 {
     static const char* n[] = {"dup-location-name", "drop-argument",  "extra-argument",   "unknown-template", "dup-template-name", "system-no-semicolon",
-                              "dup-process",       "dup-declaration", "dup-parameter",   "foreign-target",   "init-is-branchpoint", "unknown-process", "empty-template", "bad-dynamic-declaration", "no-system", "extra-initialiser", "function-without-return"};
+                              "dup-process",       "dup-declaration", "dup-parameter",   "foreign-target",   "init-is-branchpoint", "unknown-process", "empty-template", "bad-dynamic-declaration", "no-system", "extra-initialiser", "function-without-return",
+                              "urgent-and-committed", "dynamic-parameter-mismatch", "random-initialiser"};
     return f >= 0 && f < MF_COUNT ? n[f] : "?";
 }
 
@@ -860,6 +861,43 @@ bool apply_model_fault(Model& m, int fault, Rng& rng, bool semantic_only)
         if (end == std::string::npos)
             return false;
         d->text = d->text.substr(0, at) + d->text.substr(end + 2);
+        return true;
+    }
+    case MF_URGENT_AND_COMMITTED: {
+        MTempl* t = pick_templ([](const MTempl& x) { return !x.locs.empty(); });
+        if (!t)
+            return false;
+        MLoc& l = t->locs[rng.below((uint32_t)t->locs.size())];
+        // unique name: the XTA flags go by name
+        for (auto& o : t->locs)
+            if (&o != &l && o.docname() == l.docname())
+                return false;
+        l.urgent = l.committed = true;
+        return true;
+    }
+    case MF_DYNAMIC_PARAM_MISMATCH: {
+        for (auto& d : m.gdecls)
+            if (d.kind == MDecl::OTHER && d.text.rfind("dynamic D0(", 0) == 0) {
+                switch (rng.below(3)) {
+                case 0: d.text = "dynamic D0(const int dp0);"; break;
+                case 1: d.text = "dynamic D0(const int dp0, const int dp1, const int dp2);"; break;
+                default: d.text = "dynamic D0(const int dp1, const int dp0);"; break;
+                }
+                return true;
+            }
+        return false;
+    }
+    case MF_RANDOM_INIT: {
+        MDecl d;
+        d.kind = MDecl::VAR;
+        d.name = "zrnd";
+        static const char* forms[] = {"double zrnd = random(5);", "const double zrnd = random_normal(1.0, 2.0);", "double zrnd = random_tri(0, 1, 2);",
+                                      "int zrnd[2] = { 1, 2 }; double zrnd2 = random_poisson(2.0);"};
+        d.text = forms[rng.below(4)];
+        if (rng.chance(0.6) || m.templs.empty())
+            m.gdecls.push_back(d);
+        else
+            m.templs[rng.below((uint32_t)m.templs.size())].decls.push_back(d);
         return true;
     }
     case MF_BAD_DYNAMIC_DECL: {
